@@ -310,6 +310,10 @@ theorem Reachable.step {bs : Nat} {s s' : State} (h : Reachable bs s) (op : Op b
   obtain ⟨ops, hr⟩ := h
   exact ⟨ops ++ [op], by simp [run_append, hr, run, hs]⟩
 
+/-- every state reached by `Alloc` from a reachable state is reachable -/
+theorem reachable_alloc {bs : Nat} {s : State} (h : Reachable bs s) : Reachable bs (alloc bs s).1 :=
+  h.step .alloc rfl
+
 theorem run_count {bs : Nat} : ∀ (ops : List (Op bs)) (s s' : State) (A : Abs), Inv bs s A →
     run bs s ops = some s' → (∀ op ∈ ops, op.isFreeAll = false) →
     count bs s' + frees ops = count bs s + allocs ops
